@@ -58,6 +58,11 @@ func expand(ps []PlanSpec) []*HarnessSpec {
 		if !strings.Contains(pkg, ".") {
 			pkg = modPath + "/" + pkg
 		}
+		if p.MaxPaths == 0 {
+			// a run that forks without end (a change that makes a slice offset depend on input
+			// bytes, say) ends as inconclusive instead of occupying the check for hours
+			p.MaxPaths = 1000000
+		}
 		mk := func(params []int) {
 			out = append(out, &HarnessSpec{Pkg: pkg, Func: p.Func, Params: append([]int(nil), params...), MaxSteps: p.MaxSteps, MaxPaths: p.MaxPaths, Note: p.Note, Only: p.Only, Ignore: p.Ignore})
 		}
@@ -339,7 +344,7 @@ func cmdCheck(args []string) int {
 		nativeS += time.Since(tn).Seconds()
 	}
 	sampleOK := func(s *PathSample, r *nativeResult) bool {
-		if r == nil || !r.Seen || r.Panic != "" || len(r.Fails) > 0 || r.Assume || len(r.Obs) != len(s.obs) {
+		if r == nil || !r.Seen || r.Panic != "" || len(s.countedFails(r.Fails)) > 0 || r.Assume || len(r.Obs) != len(s.obs) {
 			return false
 		}
 		for i := range r.Obs {
@@ -415,7 +420,7 @@ func cmdCheck(args []string) int {
 			}
 			continue
 		}
-		ok := r.Panic == "" && len(r.Fails) == 0 && !r.Assume
+		ok := r.Panic == "" && len(s.countedFails(r.Fails)) == 0 && !r.Assume
 		if ok {
 			// compare observations and reach labels
 			if len(r.Obs) != len(s.obs) {
